@@ -112,11 +112,12 @@ CHECKS["C02"] = {
     "category": "model_checking",
     "technique": MC + " (history BFS with canonical-state dedup; oracle counts_as_change(mode, old, new) on stored objects)",
     "text": "For 12 trait kinds (Any, Int, Str, Float, List, Instance, AdaptsTo, Supports, Expression, Event, "
-            "Event(Int), an Event reached through PrototypedFrom) x comparison modes none/identity/equality x 7 'which handler raises' variants: every "
+            "Event(Int), an Event reached through PrototypedFrom) x comparison modes none/identity/equality x 12 "which handler raises" variants: every "
             "history up to depth 3 (4 thorough) of assignments from a pool (equal-but-not-identical objects, two NaN "
             "objects, a value whose == raises, values whose repr raises, converted and rejected values) and default reads; after each step "
-            "all seven handlers (static _x_changed in the class and _x_fired inherited from a base class, "
-            "_anytrait_changed, two on_trait_change, two observe) must have "
+            "all eleven handlers (static _x_changed in the class and _x_fired inherited from a base class, "
+            "_anytrait_changed, two on_trait_change, two observe, on_trait_change and observe with ui dispatch, "
+            "@on_trait_change- and @observe-decorated methods; assignments by attribute and by trait_set) must have "
             "been called exactly once iff the statement's rule counts the step as a change, with old the object "
             "stored before and new the object stored after; nothing for rejected assignments and default reads; "
             "Events always with old Undefined; a raising handler changes nothing for the others.",
